@@ -586,3 +586,80 @@ Proof.
   exists 12%N. change (cstr "0:4294967295") with ([48; 58; 52; 50; 57; 52; 57; 54; 55; 50; 57; 53] ++ 0 :: [])%N.
   apply (cstring_app [48; 58; 52; 50; 57; 52; 57; 54; 55; 50; 57; 53]%N []). repeat constructor; discriminate.
 Qed.
+
+(* ------------------------------------------------------------------ *)
+(* after fix 99dfc63: every range the parser accepts fits in an int    *)
+Lemma strto_core_digit_pos s c0 r : rdr s 0 = Ok c0 -> isdigit c0 = true -> strto_core s 0 10 = Ok r -> sr_neg r = false.
+Proof.
+  intros H0 Hd. destruct s as [|b t]; [discriminate|]. change (rdr (b :: t) 0) with (@Ok N b) in H0. injection H0 as ->.
+  assert (Hsp : isspace c0 = false) by (unfold isdigit, isspace in *; lia).
+  assert (Hm : (c0 =? 45) = false) by (unfold isdigit in *; lia).
+  assert (Hp : (c0 =? 43) = false) by (unfold isdigit in *; lia).
+  unfold strto_core, scan_while. cbn [N.to_nat skipn scan_l]. rewrite Hsp. cbn [bind].
+  change (rdr (c0 :: t) 0) with (@Ok N c0). cbn [bind]. rewrite Hm, Hp. cbn [orb].
+  change (rdr (c0 :: t) 0) with (@Ok N c0). cbn [bind].
+  repeat (match goal with
+          | |- context [bind ?x _] => destruct x; cbn [bind]; try discriminate
+          | |- context [if ?x then _ else _] => destruct x; cbn [bind]; try discriminate
+          | |- context [match ?p with pair _ _ => _ end] => destruct p
+          end); intros [= <-]; reflexivity.
+Qed.
+
+Lemma strtol_digit_nonneg str c0 v e : rdr str 0 = Ok c0 -> isdigit c0 = true -> strtol str 0 10 = Ok (v, e) -> (0 <= v)%Z.
+Proof.
+  intros H0 Hd. unfold strtol. destruct (strto_core str 0 10) as [r|] eqn:E; [|discriminate]. cbn [bind].
+  rewrite (strto_core_digit_pos _ _ _ H0 Hd E). intros [= <- _]. destruct (LONG_MAX <? sr_mag r); lia.
+Qed.
+
+(* a range as the documentation describes it: nothing negative, nothing an int cannot hold *)
+Definition range_wf (r : range) : Prop :=
+  (0 <= r_first r <= INT_MAX)%Z /\ (r_step r = 1 \/ r_step r = 2)%Z /\ (r_step r = 1 \/ r_amount r = -1)%Z /\
+  ((r_amount r = -1 /\ r_wrap r = false)%Z \/ (0 <= r_amount r <= INT_MAX)%Z).
+
+Lemma store_range_wf first amount wrap r : (0 <= first)%Z -> ((amount = -1)%Z /\ wrap = false \/ (0 <= amount)%Z) ->
+  store_range first amount wrap = Some r -> range_wf r.
+Proof.
+  intros Hf Ha. unfold store_range, INT_MAX.
+  destruct (Z.ltb_spec 2147483647 first); [discriminate|]. destruct (Z.ltb_spec 2147483647 amount); [discriminate|].
+  cbn [orb]. intros [= <-]. unfold range_wf, mk_range, INT_MAX. cbn [r_first r_amount r_step r_wrap].
+  assert (Ef : i32 first = first). { unfold i32, UINT. rewrite Z.mod_small by lia. destruct (Z.ltb_spec first 2147483648); lia. }
+  rewrite Ef. split; [lia|]. split; [now left|]. split; [now left|].
+  destruct Ha as [[-> ->]|Ha]; [left; split; reflexivity|].
+  right. unfold i32, UINT. rewrite Z.mod_small by lia. destruct (Z.ltb_spec amount 2147483648); lia.
+Qed.
+
+Lemma kw_wf first step : (first = 0 \/ first = 1)%Z -> (step = 1 \/ step = 2)%Z -> range_wf (RG first (-1) step false).
+Proof.
+  intros Hf Hs. unfold range_wf, INT_MAX. cbn [r_first r_amount r_step r_wrap].
+  split; [lia|]. split; [exact Hs|]. split; [now right|]. left. split; reflexivity.
+Qed.
+
+Lemma parse_range_wf s p r dot : parse_range s p = Ok (Some r, dot) -> r = ub_marker \/ range_wf r.
+Proof.
+  unfold parse_range.
+  repeat (match goal with
+          | |- context [bind ?x _] => destruct x eqn:?; cbn [bind]; try discriminate
+          | |- context [match ?p with pair _ _ => _ end] => destruct p eqn:?
+          | |- context [match ?o with Some _ => _ | None => _ end] => destruct o eqn:?; cbn [bind]; try discriminate
+          | |- context [if ?x then _ else _] => destruct x eqn:?; cbn [bind]; try discriminate
+          end);
+  intros [= E1 E2]; subst;
+  try (right; apply kw_wf; lia);
+  try (left; reflexivity);
+  right;
+  match goal with
+  | H1 : rdr ?str 0 = Ok ?c, H2 : strtol ?str 0 10 = Ok (?v, ?e), H3 : negb (isdigit ?c) = false |- _ =>
+      assert (Hv : (0 <= v)%Z) by (apply (strtol_digit_nonneg str c v e H1); [destruct (isdigit c); [reflexivity|cbn in H3; discriminate H3]|exact H2])
+  end;
+  (eapply store_range_wf; [exact Hv| |eassumption]); first [left; split; reflexivity | right; lia].
+Qed.
+
+(* ... and lies in the domain of calc_denotes for every level an int can count *)
+Lemma range_wf_ok r w : range_wf r -> (0 <= w < 2147483648)%Z -> range_ok r w.
+Proof.
+  unfold range_wf, range_ok, INT_MAX, UINT. intros (Hf & Hs & Hws & Ha) Hw.
+  split; [lia|]. split; [exact Hs|]. split; [lia|].
+  destruct (r_wrap r) eqn:Ew.
+  - destruct Ha as [[_ Hx]|Ha]; [discriminate|]. lia.
+  - destruct (Z.eqb_spec (r_amount r) (-1)); [exact I|]. destruct Ha as [[Hx _]|Ha]; [contradiction|]. lia.
+Qed.
